@@ -29,15 +29,18 @@
   `Wf P` is a `Prop` over functions; for line-protocol programs (`progOf es`) it follows from the
   decidable check `wfList 0 es = true` (`c11_equals_fresh_prog`).
 
+  `accumulatedBy` is the search written by structural recursion on the call rank; `accLoop` /
+  `accumulatedByStack` is the explicit-stack `while let Some(k) = stack.pop()` loop of
+  accumulated.rs with fuel, and `c11_stack_agrees` shows that with enough fuel it returns the same
+  state (hence the same events) and the same list.
+
   All statements of DESIGN.md §C11 are proved for this model.  NOT YET PROVED: nothing of C11 for
   stage S2; the lift to the stage-S3/S4 engine (eviction, `no_eq`, untracked reads, tracked structs,
-  specify, interning) is not done, and `accumulatedBy` is the recursive rendering of the explicit
-  stack of accumulated.rs (same sequence of visited-set tests, `refresh_memo` calls and output
-  extensions — confirmed by the differential test on event streams — but the explicit-stack loop
-  itself is not a separate Lean definition).
+  specify, interning) is not done.
 -/
 import SalsaVerif.Model.CoreAcc
 import SalsaVerif.Proofs.CoreAccRef
+import SalsaVerif.Proofs.CoreAccStack
 
 namespace SalsaVerif.Props.C11
 open SalsaVerif.Model.CoreAcc SalsaVerif.Proofs.CoreAcc
@@ -135,6 +138,23 @@ theorem c11_equals_fresh_prog (es : List Expr) (h : wfList 0 es = true) (inp : N
     outputs (progOf es) (init inp) ops = refOutputs (progOf es) (envOf inp) ops :=
   c11_equals_fresh_history (wf_progOf es h) inp ops
 
+/-- **The explicit stack.**  The loop of accumulated.rs (`accLoop`: pop, visited test,
+    `refresh_memo`, extend the output, push the recorded edges so that the first one is popped first)
+    terminates after finitely many pops and then returns exactly the state (events included) and
+    the list of `accumulatedBy`. -/
+theorem c11_stack_agrees {P : Nat → Body} (hP : Wf P) (inp : Nat → Inp) (ops : List Op) (q : Nat) :
+    ∃ n, ∀ fuel, n ≤ fuel →
+      accumulatedByStack P fuel (run P inp ops) q = some (accumulatedBy P (run P inp ops) q) :=
+  accumulatedByStack_eq hP _ q (run_inv hP inp ops)
+
+/-- hence the explicit-stack search returns the reference preorder too -/
+theorem c11_equals_fresh_stack {P : Nat → Body} (hP : Wf P) (inp : Nat → Inp) (ops : List Op) (q : Nat) :
+    ∃ n, ∀ fuel, n ≤ fuel →
+      (accumulatedByStack P fuel (run P inp ops) q).map (·.2) = some (refAcc P (run P inp ops).inp q) := by
+  obtain ⟨n, h⟩ := c11_stack_agrees hP inp ops q
+  refine ⟨n, fun fuel hf => ?_⟩
+  rw [h fuel hf, Option.map_some, c11_equals_fresh hP]
+
 /-- **Independence of the memo state.**  Two histories (of the same program) that end with the
     same input values give the same accumulated list, whatever happened to the memos on the way
     (reused, shallowly or deeply verified, backdated, recomputed, never computed). -/
@@ -192,6 +212,13 @@ example : refAcc (progOf exProg) (run (progOf exProg) exInp [.acc 3, .set 1 6 no
 example : outputs (progOf exProg) (init exInp)
     [.acc 3, .set 1 6 none, .acc 3, .set 0 2 none, .acc 3, .get 3, .acc 1]
     = [.acc [1, 5, 7], .acc [1, 6, 7], .acc [6, 7], .val 2, .acc [6, 7]] := by decide
+
+-- the explicit-stack loop on the same state: 7 pops (q3, q2, i0, q1, q0 [flag `Empty`: its edge i2 is
+-- not pushed], i1, q1 again [visited: skipped]) and the final test of the empty stack; with less fuel `none`
+example : (accumulatedByStack (progOf exProg) 8 (run (progOf exProg) exInp [.acc 3, .set 1 6 none]) 3).map (·.2)
+    = some [1, 6, 7] := by decide
+example : accumulatedByStack (progOf exProg) 7 (run (progOf exProg) exInp [.acc 3, .set 1 6 none]) 3 = none := by
+  decide
 
 -- `accumulated` directly after a write of the HIGH input: the search itself refreshes the memos
 example : (accumulatedBy (progOf exProg) (run (progOf exProg) exInp [.acc 3, .set 2 4 none]) 3).2 = [1, 5, 4] := by
